@@ -30,7 +30,7 @@ COMPONENTS = {
              'run family: the algorithms; store variant: SqliteDataStore + ProblemViewDataStore'],
     'stub': ['user objective with failure plan', 'PRNG seam', 'joblib', 'time.time', 'uuid1'],
 }
-PROBES_EXPECTED = ['resynchronised_before_readback', 'reopened_session_readback', 'run_family', 'direct_family', 'view_readback', 'maximised_goal_optimum', 'duplicate_values', 'unsorted_tags',
+PROBES_EXPECTED = ['same_vector_recorded_again_with_other_costs', 'resynchronised_before_readback', 'reopened_session_readback', 'run_family', 'direct_family', 'view_readback', 'maximised_goal_optimum', 'duplicate_values', 'unsorted_tags',
                    'rerolled_designs', 'gd_checked', 'eps_checked', 'queried_again_after_more_recordings', 'changed_without_count_change',
                    'eps_integer_reference']
 
@@ -295,10 +295,19 @@ def _direct(D):
         if grid:
             vec = [q['bounds'][0] + (q['bounds'][1] - q['bounds'][0]) * round(4 * (x - q['bounds'][0]) / (q['bounds'][1] - q['bounds'][0])) / 4.0
                    for x, q in zip(vec, w.params)]
+        # a design recorded once more with other costs (a noisy or robust objective, a re-evaluation in a later generation):
+        # both records are recorded individuals, queries speak of all of them
+        again = i > 0 and D.dec('work', ('again', i), 4) == 1
+        if again:
+            vec = list(ledger[D.dec('work', ('againof', i), i)][2])
+            ctx.probe('same_vector_recorded_again_with_other_costs')
         ind = Individual(vec)
         ind.costs = w.f(vec)
         if grid:
             ind.costs = [float(round(c * 2) / 2.0) for c in ind.costs]
+        if again:
+            shift = (-0.375, 0.375, -2.0, 2.0)[D.dec('work', ('againshift', i), 4)]
+            ind.costs = [float(c + shift) for c in ind.costs]
         ind.calc_signed_costs(w.signs)
         ind.state = ind.State.EVALUATED
         ind.population_id = D.dec('work', ('tag', i), 4)
